@@ -274,6 +274,7 @@ type Printer struct {
 func (p *Printer) reset() {
 	p.wantSpace = spaceWritten
 	p.wantNewline, p.mustNewline = false, false
+	p.wroteSemi = false
 	p.pendingComments = p.pendingComments[:0]
 
 	// minification uses its own newline logic
